@@ -1,10 +1,188 @@
 import Driver.Util
-open Lean Driver
+import GinjaxVerif.Model.C10
+open Lean Driver GinjaxVerif.C10
 
+/-!
+Driver ops of C10.  Blocks travel as `{"key":[k,p], "shape":[…], "data":[…]}` (row-major);
+2-D blocks have shape `(ch, nx, ny)` (`k = 0`) or `(ch, nx, ny, 2)` (`k = 1`), 1-D blocks
+`(rows, nx)`, ModelWrapper blocks `(ch, S, D^k)` with flat spatial and tensor axes.
+-/
 namespace Driver.C10
 
-def handle (op : String) (_j : Json) : R Json := do
+structure RawBlk (α : Type) where
+  key : Key
+  shape : List Nat
+  data : Array α
+
+def parseKey (j : Json) : R Key := do
+  match ← asList asNat j with
+  | [k, p] => pure (k, p)
+  | _ => throw "bad key"
+
+def parseBlk {α} (val : Json → R α) (j : Json) : R (RawBlk α) := do
+  let key ← field j "key" >>= parseKey
+  let shape ← listF asNat j "shape"
+  let data ← listF val j "data"
+  if data.length ≠ shape.foldl (· * ·) 1 then throw "bad block: data length"
+  pure ⟨key, shape, data.toArray⟩
+
+def parseSig (j : Json) : R (List (Key × Nat)) :=
+  asList (fun e => do
+    match ← asList asNat e with
+    | [k, p, n] => pure ((k, p), n)
+    | _ => throw "bad signature entry") j
+
+def jSig (s : List (Key × Nat)) : Json :=
+  jList (fun e => jList jNat [e.1.1, e.1.2, e.2]) s
+
+def parseCfg (j : Json) : R ClimCfg := do
+  pure { nx := ← natF j "nx", ny := ← natF j "ny", past := ← natF j "past",
+         future := ← natF j "future",
+         constFields := ← field j "const" >>= parseSig,
+         outputKeys := ← field j "out_keys" >>= parseSig }
+
+/-- a 2-D block as an index function; the extents must be those of the configuration -/
+def toBlk2 {α} [Inhabited α] (nx ny : Nat) (b : RawBlk α) : R (Key × Blk2 α) := do
+  match b.key.1, b.shape with
+  | 0, [ch, sx, sy] =>
+    if sx ≠ nx || sy ≠ ny then throw "bad block: spatial extents"
+    pure (b.key, ⟨ch, fun c x y _ => b.data[(c * nx + x) * ny + y]!⟩)
+  | 1, [ch, sx, sy, 2] =>
+    if sx ≠ nx || sy ≠ ny then throw "bad block: spatial extents"
+    pure (b.key, ⟨ch, fun c x y comp => b.data[((c * nx + x) * ny + y) * 2 + comp]!⟩)
+  | _, _ => throw "bad block: order/shape not supported by Climate1D"
+
+def toBlk1 {α} [Inhabited α] (nx : Nat) (b : RawBlk α) : R (Key × Blk1 α) := do
+  match b.shape with
+  | [rows, sx] =>
+    if sx ≠ nx then throw "bad block: lon extent"
+    pure (b.key, ⟨rows, fun r x => b.data[r * nx + x]!⟩)
+  | _ => throw "bad 1-D block shape"
+
+def jBlkOf {α} (val : α → Json) (key : Key) (shape : List Nat) (data : List α) : Json :=
+  Json.mkObj [("key", jList jNat [key.1, key.2]), ("shape", jList jNat shape),
+              ("data", jList val data)]
+
+def outBlk2 {α} (val : α → Json) (nx ny : Nat) (kb : Key × Blk2 α) : Json :=
+  let nc := if kb.1.1 = 0 then 1 else 2
+  let data := (List.range kb.2.ch).flatMap fun c => (List.range nx).flatMap fun x =>
+    (List.range ny).flatMap fun y => (List.range nc).map fun comp => kb.2.val c x y comp
+  jBlkOf val kb.1 ([kb.2.ch, nx, ny] ++ (if kb.1.1 = 0 then [] else [2])) data
+
+def outBlk1 {α} (val : α → Json) (nx : Nat) (kb : Key × Blk1 α) : Json :=
+  let data := (List.range kb.2.rows).flatMap fun r => (List.range nx).map fun x => kb.2.val r x
+  jBlkOf val kb.1 [kb.2.rows, nx] data
+
+def distinctKeys {B} (d : List (Key × B)) : Bool := (keysOf d).eraseDups.length == d.length
+
+def parseMI2 {α} [Inhabited α] (val : Json → R α) (nx ny : Nat) (j : Json) : R (MI2 α) := do
+  let raw ← asList (parseBlk val) j
+  let x ← raw.mapM (toBlk2 nx ny)
+  if !distinctKeys x then throw "duplicate key in a dict"
+  pure x
+
+def parseMI1 {α} [Inhabited α] (val : Json → R α) (nx : Nat) (j : Json) : R (MI1 α) := do
+  let raw ← asList (parseBlk val) j
+  let z ← raw.mapM (toBlk1 nx)
+  if !distinctKeys z then throw "duplicate key in a dict"
+  pure z
+
+/-- ModelWrapper blocks `(ch, S, D^k)` -/
+def toBlkT {α} [Inhabited α] (D : Nat) (b : RawBlk α) : R (Key × BlkT α × Nat) := do
+  match b.shape with
+  | [ch, S, nt] =>
+    if nt ≠ D ^ b.key.1 then throw "bad block: tensor extent"
+    pure (b.key, ⟨ch, fun c p t => b.data[(c * S + p) * nt + t]!⟩, S)
+  | _ => throw "bad block shape"
+
+def outBlkT {α} (val : α → Json) (D S : Nat) (kb : Key × BlkT α) : Json :=
+  let nt := D ^ kb.1.1
+  let data := (List.range kb.2.ch).flatMap fun c => (List.range S).flatMap fun p =>
+    (List.range nt).map fun t => kb.2.val c p t
+  jBlkOf val kb.1 [kb.2.ch, S, nt] data
+
+instance : Add (List Rat) := ⟨fun a b => List.zipWith (· + ·) a b⟩
+
+def handle (op : String) (j : Json) : R Json := do
   match op with
+  | "c10.to1d" =>
+    let cfg ← field j "cfg" >>= parseCfg
+    let legacy ← boolF j "legacy"
+    let x ← field j "x" >>= parseMI2 asInt cfg.nx cfg.ny
+    if !to1dValid cfg x then throw "to1d: rejected"
+    let z := if legacy then climateTo1dLegacy cfg x else climateTo1d cfg x
+    pure (jList (outBlk1 jInt cfg.nx) z)
+  | "c10.from1d" =>
+    let cfg ← field j "cfg" >>= parseCfg
+    let z ← field j "z" >>= parseMI1 asInt cfg.nx
+    if !from1dValid cfg z then throw "from1d: rejected"
+    pure (jList (outBlk2 jInt cfg.nx cfg.ny) (climateFrom1d cfg z))
+  | "c10.sig1d" =>
+    let sig ← field j "sig" >>= parseSig
+    let ny ← natF j "ny"
+    if !(sig.all fun e => allowedKey e.1) then throw "sig1d: rejected"
+    pure (jSig (get1dSignature sig ny))
+  | "c10.flip" =>
+    let which ← strF j "which"
+    let nx ← natF j "nx"
+    let ny ← natF j "ny"
+    match which with
+    | "lon2" =>
+      let x ← field j "x" >>= parseMI2 asInt nx ny
+      pure (jList (outBlk2 jInt nx ny) (flipLon2 nx x))
+    | "eq2" =>
+      let x ← field j "x" >>= parseMI2 asInt nx ny
+      pure (jList (outBlk2 jInt nx ny) (flipEq2 ny x))
+    | "lon1" =>
+      let z ← field j "x" >>= parseMI1 asInt nx
+      pure (jList (outBlk1 jInt nx) (flip1 nx z))
+    | _ => throw "bad flip"
+  | "c10.climate_combine" =>
+    let cfg ← field j "cfg" >>= parseCfg
+    let a ← field j "a" >>= parseMI1 asRat cfg.nx
+    let b ← field j "b" >>= parseMI1 asRat cfg.nx
+    if !from1dValid cfg a || !from1dValid cfg b then throw "from1d: rejected"
+    pure (jList (outBlk2 jRat cfg.nx cfg.ny) (climateCombine (fun v : Rat => v / 2) cfg a b))
+  | "c10.average" =>
+    -- `groupAverageCode` with the group action supplied by the caller: operator `i` is the
+    -- number `i`, `inner[i] = f(g_i · x)` and `back[i] = g_iᵀ · inner[i]` are tables
+    let aa ← boolF j "always_average"
+    let inf ← boolF j "inference"
+    let plain ← listF asRat j "plain"
+    let inner ← listF (asList asRat) j "inner"
+    let back ← listF (asList asRat) j "back"
+    if inner.length ≠ back.length then throw "bad tables"
+    let n := inner.length
+    -- X = Option Nat (none = x, some i = g_i · x); Y = tagged vectors
+    let f : Option Nat → (Option Nat × List Rat) := fun
+      | none => (none, plain)
+      | some i => (some i, inner.getD i [])
+    let actY : Nat → (Option Nat × List Rat) → (Option Nat × List Rat) := fun _ y =>
+      match y.1 with
+      | some i => (none, back.getD i [])
+      | none => y
+    let _ : Add (Option Nat × List Rat) := ⟨fun a b => (none, a.2 + b.2)⟩
+    let out := groupAverageCode (G := Nat) (X := Option Nat) id (fun g _ => some g) actY
+      (fun m y => (none, y.2.map fun v => v / (m : Rat))) aa inf (List.range n) f none
+    pure (jList jRat out.2)
+  | "c10.to_scalar" =>
+    let D ← natF j "D"
+    let raw ← field j "x" >>= asList (parseBlk asInt)
+    let xs ← raw.mapM (toBlkT D)
+    let S := (xs.head?.map (·.2.2)).getD 0
+    if !(xs.all fun e => e.2.2 == S) then throw "bad blocks: spatial extents differ"
+    let x := xs.map fun e => (e.1, e.2.1)
+    if !distinctKeys x then throw "duplicate key in a dict"
+    match dLookup (toScalar D x) (0, 0) with
+    | none => throw "to_scalar: rejected (empty)"
+    | some arr => pure (outBlkT jInt D S ((0, 0), arr))
+  | "c10.from_scalar" =>
+    let D ← natF j "D"
+    let layout ← field j "layout" >>= parseSig
+    let raw ← field j "arr" >>= parseBlk asInt
+    let (_, arr, S) ← toBlkT D ⟨(0, 0), raw.shape, raw.data⟩
+    if layoutSize D layout > arr.ch then throw "from_scalar: rejected (too few channels)"
+    pure (jList (outBlkT jInt D S) (fromScalar D layout arr))
   | _ => throw s!"unknown op {op}"
 
 end Driver.C10
